@@ -8,11 +8,12 @@
 //         R k | r k | d k           destroy: host delete | `level.o<k> remove` | `level.o<k> delete`
 //         Q t | Z t | I t i         report t | t.size | t[i]
 //         C t T n | C t R | C t M | C t K j     t targetname "x" | t remove | t mark | t kill j
-//         F t                       t.tag = <fresh value>; reports who has it afterwards
+//         F t [G]                   t.tag = <fresh value>; reports who has it afterwards (ascending)
+//         F t T n | F t U j | F t Z j     t.targetname = "x" | t.fuse = j | t.zap = j   (fuse, zap: host setters that log the
+//                                   receiver; fuse raises a script error when the receiver is j, zap deletes object j)
 //         K j n                     level.c<j> = $n
 //         X <script, `|` = newline>     (corpus/probing only; reports nothing but warnings and the table)
 //   out:  m <val> w=<warning classes|-> log=<receivers|-> t=<a>/<b>/<c>/<d>/<"">/<live objects in no list>
-//         (the driver's lines carry an extra f=<flag>, removed before the comparison)
 #include "engine.h"
 #include <morfuse/Script/SimpleEntity.h>
 #include <morfuse/Script/Level.h>
@@ -38,6 +39,13 @@ public:
     Ent() { id = g_nextId++; g_live[id] = this; }
     ~Ent() { g_live.erase(id); }
     void Mark(Event&) { g_log.push_back(id); }
+    void Fuse(Event& ev)
+    {
+        const int j = ev.GetInteger(1);
+        g_log.push_back(id);
+        if (j == id) throw ScriptException("blown fuse");
+    }
+    void Zap(Event& ev) { Kill(ev); }
     void Kill(Event& ev)
     {
         const int j = ev.GetInteger(1);
@@ -88,12 +96,16 @@ public:
 
 EventDef evMark("mark", 0, nullptr, nullptr, "verification: log the receiver");
 EventDef evKill("kill", 0, "i", "id", "verification: log the receiver and delete object id");
+EventDef evFuse("fuse", 0, "i", "id", "verification: setter that logs the receiver and fails for object id", evType_e::Setter);
+EventDef evZap("zap", 0, "i", "id", "verification: setter that logs the receiver and deletes object id", evType_e::Setter);
 EventDef evReport("report", 0, nullptr, nullptr, "verification: report a value to the host");
 
 MFUS_CLASS_DECLARATION(SimpleEntity, Ent, nullptr)
 {
     { &evMark, &Ent::Mark },
     { &evKill, &Ent::Kill },
+    { &evFuse, &Ent::Fuse },
+    { &evZap, &Ent::Zap },
     { nullptr, nullptr }
 };
 MFUS_CLASS_DECLARATION(Listener, Probe, nullptr)
@@ -131,6 +143,7 @@ static std::string warnClasses(const std::string& w)
         else if (msg.find("applied to NULL listener") != std::string::npos) c = "Null";
         else if (msg.find("Cannot cast") != std::string::npos) c = "Cast";
         else if (msg.find("out of range") != std::string::npos) c = "Range";
+        else if (msg.find("blown fuse") != std::string::npos) c = "Fail";
         else std::fprintf(stderr, "unclassified warning: %s\n", msg.c_str());
         if (!out.empty()) out += ",";
         out += c;
@@ -241,15 +254,19 @@ int main()
                 else { int j; is >> j; cmd = "kill " + std::to_string(j); }
                 c.runScript(targetExpr(t) + " " + cmd);
             } else if (o == "F") {
-                is >> t;
-                const int v = c.fresh++;
-                c.runScript(targetExpr(t) + ".tag = " + std::to_string(v));
-                for (auto& p : g_live) {
-                    ScriptVariableList* vars = p.second->Vars();
-                    const ScriptVariable* tv = vars ? vars->GetVariable(str("tag")) : nullptr;
-                    if (tv && tv->GetType() == variableType_e::Integer && tv->intValue() == v) g_log.push_back(p.first);
-                }
-                sortLog = true;
+                std::string k;
+                is >> t >> k;
+                if (k.empty() || k == "G") {
+                    const int v = c.fresh++;
+                    c.runScript(targetExpr(t) + ".tag = " + std::to_string(v));
+                    for (auto& p : g_live) {
+                        ScriptVariableList* vars = p.second->Vars();
+                        const ScriptVariable* tv = vars ? vars->GetVariable(str("tag")) : nullptr;
+                        if (tv && tv->GetType() == variableType_e::Integer && tv->intValue() == v) g_log.push_back(p.first);
+                    }
+                    sortLog = true;
+                } else if (k == "T") { int n; is >> n; c.runScript(targetExpr(t) + ".targetname = " + quoted(n ? n : 5)); }
+                else { int j; is >> j; c.runScript(targetExpr(t) + (k == "U" ? ".fuse = " : ".zap = ") + std::to_string(j)); }
             } else if (o == "K") {
                 int j, n; is >> j >> n;
                 c.runScript("level.c" + std::to_string(j) + " = " + targetExpr("n" + std::to_string(n)));
